@@ -50,7 +50,7 @@ def map_options(o):
 def cli_argv(o, target):
     a = []
     if o.get("protocol") is not None:
-        a += ["--protocol", str(o["protocol"])]
+        a += ["--protocol", str(o.get("protocol_text") or o["protocol"])]
     if o.get("seed") is not None:
         a += ["--seed", str(o.get("seed_text") or o["seed"])]
     if o.get("min") is not None:
@@ -81,7 +81,7 @@ FALSY = ["false", "0", "no", "False", "off", "", "FALSE", "none", "None", "NONE"
 def action_env(o, sep, out_file=None, out_dir=None, samples=None, truth="true", falsy="false"):
     e = {}
     if o.get("protocol") is not None:
-        e["INPUT_PROTOCOL"] = str(o["protocol"])
+        e["INPUT_PROTOCOL"] = str(o.get("protocol_text") or o["protocol"])
     if o.get("seed") is not None:
         e["INPUT_SEED"] = str(o.get("seed_text") or o["seed"])
     if o.get("min") is not None:
@@ -146,6 +146,10 @@ def option_matrix(rng, n_random):
         out.append(mk(protocol=p, seed=100 + p))
     for s in range(12):
         out.append(mk(seed=s))                      # protocol = seed % 6
+        out.append(mk(seed=s, buf=True))            # ... and the opt-in flags apply to the derived protocol
+        out.append(mk(seed=s + 12, ext=True, buf=True))
+    for ptxt, p in (("05", 5), ("+5", 5), ("02", 2)):
+        out.append(mk(protocol=p, protocol_text=ptxt, seed=7, ext=True, buf=True))
     out.append(mk(seed=2 ** 63 + 5))
     out.append(mk(seed=2 ** 64 - 1))
     out.append(mk(seed=2 ** 63))
